@@ -179,6 +179,7 @@ func CheckResult(r *CallResult) string {
 func Run(sc *Scenario, prefix []int, tracing bool) *World {
 	s := sched.New(prefix)
 	s.Tracing = tracing
+	s.UnlockYields = true
 	w := &World{S: s, Sc: sc, Store: &MemStore{}, Warn: make(chan error, 64)}
 	if sc.ClockStart != 0 {
 		s.SetClock(sc.ClockStart)
